@@ -35,10 +35,10 @@ func init() {
 		ID: "C14", Engine: "storesim",
 		Profiles:  []kit.ProfileSpec{{Name: "faultfree", Weight: 3}, {Name: "faults", Weight: 1}},
 		QuickRuns: 12000, QuickBudgetS: 40, ThoroughRuns: 1300000, ThoroughBudgetS: 540,
-		Rule: "one run = one tape-drawn history (15-60 operations quick, 30-140 thorough) over state.NewWorldState with 4 accounts whose trie keys share prefixes: balance / storage set+delete / contract init+owner / block+disable flags / contract life cycle (deploy a next code version, accept or reject it by its deploy transaction, wrong-transaction and wrong-state audits that must be refused without effect, object graph of the current code) / Clear, account reads through AccountState and AccountSnapshot (handles reused or re-fetched by tape), GetSnapshot, check-snapshot, Reset, ClearCache, Flush, reload (NewWorldState, NewWorldSnapshot+WorldStateFromSnapshot, WorldStateFromSnapshot of a live snapshot), dirty restart, held AccountSnapshots re-read later. " +
+		Rule: "one run = one tape-drawn history (15-60 operations quick, 30-140 thorough) over state.NewWorldState with 4 accounts whose trie keys share prefixes: balance / storage set+delete / contract init+owner / block+disable flags / contract life cycle (deploy a next code version, activate it as the deploy handler does before the on-install call, accept or reject it by its deploy transaction, wrong-transaction and wrong-state audits that must be refused without effect, object graph of the current code) / Clear, account reads through AccountState and AccountSnapshot (handles reused or re-fetched by tape), GetSnapshot, check-snapshot, Reset, ClearCache, Flush, reload (NewWorldState, NewWorldSnapshot+WorldStateFromSnapshot, WorldStateFromSnapshot of a live snapshot), dirty restart, held AccountSnapshots re-read later. " +
 			"Reference = array of account records copied at every snapshot; every live world snapshot is re-read in a tape-chosen account order (optionally through NewReadOnlyWorldState) and its StateHash compared with its first value and with a world state rebuilt from scratch from the logical contents (non-empty accounts only). " +
 			"Non-trivial = at least 3 effective mutations and at least one full snapshot comparison; distinct = distinct event-log hash (operations, arguments, results; no DB access counts because worldstate.go walks its cache in Go map order).",
-		QuickProbes:     []string{"snapshot_compared_after_later_mutation", "account_snapshot_compared_after_later_mutation", "reset_after_mutation", "account_emptied_again", "dirty_restart_with_flushed_root", "reload_world_from_db", "reload_fresh_view", "clear_cache", "flush_error_then_retry_ok", "touch_empty_account", "storage_emptied", "read_through_readonly_worldstate", "world_from_snapshot_object", "account_handle_reused", "contract_deployed", "contract_accepted", "contract_rejected", "object_graph_set"},
+		QuickProbes:     []string{"snapshot_compared_after_later_mutation", "account_snapshot_compared_after_later_mutation", "reset_after_mutation", "account_emptied_again", "dirty_restart_with_flushed_root", "reload_world_from_db", "reload_fresh_view", "clear_cache", "flush_error_then_retry_ok", "touch_empty_account", "storage_emptied", "read_through_readonly_worldstate", "world_from_snapshot_object", "account_handle_reused", "contract_deployed", "contract_accepted", "contract_next_activated", "contract_rejected", "object_graph_set"},
 		EssentialProbes: []string{"error_surfaced_after_injection", "set_empty_value"},
 		Assumptions: []string{
 			"account universe of 4 ids, 6 storage keys; validators, extension and BTP parts of the world state stay empty",
@@ -59,7 +59,7 @@ func init() {
 		Profiles:  []kit.ProfileSpec{{Name: "faultfree", Weight: 2}, {Name: "faults", Weight: 1}, {Name: "concurrent", Weight: 2}},
 		QuickRuns: 40000, QuickBudgetS: 40, ThoroughRuns: 2000000, ThoroughBudgetS: 540,
 		Rule: "single-client profiles: one run = a prefilled underlying store, then 10-50 (thorough 20-120) tape-drawn operations set/delete/get/has over 3 buckets x 6 keys through db.NewLayerDB, direct writes to the underlying store below the layer, full comparisons (layer view and underlying store against the overlay model, journal replay), Flush(true)/Flush(false), new layers after a commit, and a final commit or discard; 'faults' adds write errors during Flush(true) (commit must report them, the underlying store may then hold old or pending values until a retried commit succeeds) and read errors. " +
-			"concurrent profile: 2-3 client tasks with scripted set/delete/get/has/commit/discard on 2 buckets x 1-3 keys, scheduled one at a time by the tape (token scheduler; tasks park before each invoke and inside every underlying DB access; a task blocked on a layer lock held by a parked task is detected by goroutine-state introspection), invoke/return stamped with the event sequence number, per-key histories checked by porcupine against a register (discard = write of the base value), plus 'no underlying write before a commit is invoked' and 'underlying = view after a successful commit'. " +
+			"concurrent profile: 2-3 client tasks with scripted set/delete/get/has/commit/discard on 2 buckets x 1-3 keys, scheduled one at a time by the tape (token scheduler; tasks park before each invoke, inside every underlying DB access and while a bucket of the underlying store is being opened; a task blocked on a layer lock held by a parked task is detected by goroutine-state introspection), invoke/return stamped with the event sequence number, per-key histories checked by porcupine against a register (discard = write of the base value), plus 'no underlying write before a commit is invoked' and 'underlying = view after a successful commit'. " +
 			"Non-trivial = (single) at least 3 layer operations and one commit/discard; (concurrent) at least 6 operations with at least one overlapping pair of operations of different tasks. Distinct = distinct event-log hash.",
 		QuickProbes:     []string{"commit_nonempty_layer", "discard_nonempty_layer", "delete_after_set_in_layer", "set_after_delete_in_layer", "delete_absent_key", "delete_shadows_underlying", "underlying_changed_below_layer_write", "commit_error_then_retry_ok", "commit_error_returned", "overlapping_operations", "task_blocked_on_lock_of_parked_task", "concurrent_commit", "concurrent_discard"},
 		EssentialProbes: []string{"discard_refused_after_commit", "empty_value", "commit_again", "error_surfaced_after_injection"},
